@@ -99,7 +99,9 @@ def gen_case(rng, supervised, large_scale=False):
         cap = run_with_frame(lambda: est.fit(X.copy(), y.copy(), bounds=bounds_arg))
       else:
         est = gen.ITML(gamma=gamma, max_iter=max_iter, tol=tol, prior=prior_arg, random_state=seed)
-        cap = run_with_frame(lambda: est.fit(pairs.copy(), lab.copy(), bounds=bounds_arg))
+        how = {}
+        cap = run_with_frame(lambda: how.update(how=gen.fit_tuples_via(rng, est, X, idx, lab, bounds=bounds_arg)[1]))
+        ev['how'] = how.get('how', '')
       L = np.asarray(est.components_)
       M = L.T.dot(L)
       # the DOCUMENTED prior, computed without the library where the documentation defines it (the harness's own copy of
